@@ -56,7 +56,9 @@ def RULE(tier):
         "traverse {T,F} x optimize_graph {T,F} x scheduler {sync, threads, ThreadPoolExecutor instance, multiprocessing.get with in-line pool}; "
         "every depth-1 template x 8 kind pairs x each single option flipped; dask.persist and dask.optimize on every depth-1 template and the "
         "core depth-2 templates (8 kind pairs) and the core templates (49 pairs): same structure, same collection type and metadata "
-        "(dtype/chunks/npartitions/divisions/columns), same computed values. non-trivial = the template holds >= 1 collection inside a container."
+        "(dtype/chunks/npartitions/divisions/columns), same computed values; INTERLEAVED templates (X, Y, Z[, W]) with Z a second distinct collection "
+        "of X's kind and W of Y's kind, in list/tuple/dict/positional args (thorough: + OrderedDict/iterator, all 24 orders) and nested, all 49 kind pairs, compute x "
+        "optimize_graph x scheduler, persist, optimize. non-trivial = the template holds >= 1 collection inside a container."
     )
 
 
@@ -114,8 +116,8 @@ def inc(x):
 
 # ====================================================================== collections and their eager values
 def make(kind, which):
-    """-> (collection, eager value).  which in {'X', 'Y'}: different data, so X and Y never compute to equal values"""
-    off = 0 if which == "X" else 10
+    """-> (collection, eager value).  which in {'X', 'Y', 'Z', 'W'}: different data, so no two of them compute to equal values"""
+    off = {"X": 0, "Y": 10, "Z": 20, "W": 30}[which]
     if kind == "dly":
         return delayed(inc, pure=True)(delayed(5 + off, name=f"five-{which}")), 6 + off
     if kind == "arr":
@@ -154,6 +156,10 @@ def meta_of(c):
 
 # ====================================================================== templates
 # leaves: ("X",) ("X2",) ("Y",) ("O",) and the literals 1, "s", None.   containers: (kind, items)
+# interleave templates additionally use ("Z",) = a second, DISTINCT collection of X's kind and ("W",) = a second one of Y's kind
+COLL = ("X", "X2", "Y", "Z", "W")
+SEQ_CONTAINERS = ("list", "tuple", "dict", "args")  # containers of arbitrary length (thorough adds odict, iter)
+ITEMS_INTERLEAVED = ((("X",), ("Y",), ("Z",)), (("X",), ("Y",), ("Z",), ("W",)), (("X",), ("Y",), ("X2",), ("Z",)))
 LEAVES = (("X",), ("X2",), ("Y",), 1, "s", None, ("O",))
 CORE_ITEMS = ((("X",),), (("X",), ("Y",)), (("X",), ("X2",)), (1, ("X",)))
 INNER_ITEMS = CORE_ITEMS + ((("X",), None), (("O",), ("X",)))
@@ -202,7 +208,7 @@ def construct(t, env):
     """template -> python object (raises TypeError for unhashable set members / dict keys)"""
     if is_leaf(t):
         if isinstance(t, tuple):
-            return env[{"X": "X", "X2": "X", "Y": "Y", "O": "O"}[t[0]]]
+            return env["X" if t[0] == "X2" else t[0]]
         return t
     c, items = t
     vals = [construct(i, env) for i in items]
@@ -261,7 +267,7 @@ def _assemble(c, vals):
 
 def holds_nested_collection(t, depth=0):
     if is_leaf(t):
-        return depth >= 1 and isinstance(t, tuple) and t[0] in ("X", "X2", "Y")
+        return depth >= 1 and isinstance(t, tuple) and t[0] in COLL
     return any(holds_nested_collection(i, depth + (0 if t[0] == "args" else 1)) for i in t[1])
 
 
@@ -289,8 +295,8 @@ def walk_collections(t, got, env, vals, path="$"):
     """got must mirror template t; collection leaves must be collections of the same type/meta computing to the eager value.
     -> (failure-class, reason) | None"""
     if is_leaf(t):
-        if isinstance(t, tuple) and t[0] in ("X", "X2", "Y"):
-            name = "Y" if t[0] == "Y" else "X"
+        if isinstance(t, tuple) and t[0] in COLL:
+            name = "X" if t[0] == "X2" else t[0]
             orig = env[name]
             if not is_dask_collection(got):
                 return ("leaf-not-collection", f"{path}: expected a {type(orig).__name__}, got {type(got).__name__} {got!r}"[:300])
@@ -397,7 +403,7 @@ def all_cases(tier):
         for n, (kx, ky) in enumerate(PAIRS_MAIN):
             yield ("compute", t, kx, ky, False, True, "sync")
             yield ("compute", t, kx, ky, True, False, "sync")
-            if T or n % 2 == 1:
+            if T or n % 4 == 1:
                 for s in SCHEDS[1:]:
                     yield ("compute", t, kx, ky, True, True, s)
     # D: persist / optimize
@@ -420,6 +426,23 @@ def all_cases(tier):
                 for kx, ky in PAIRS_MAIN:
                     for s in SCHEDS[1:]:
                         yield (api, t, kx, ky, True, True, s)
+    # E: INTERLEAVED kinds: two distinct collections of X's kind separated by one of Y's kind (and 4-tuples X, Y, Z, W), flat and nested,
+    #    every ordered kind pair, compute (every optimize_graph x scheduler) / persist / optimize
+    inter = [(c, items) for c in SEQ_CONTAINERS + (("odict", "iter") if T else ()) for items in ITEMS_INTERLEAVED]
+    inter += [("list", (("X",), ("tuple", (("Y",),)), ("Z",))), ("args", (("list", (("X",),)), ("Y",), ("dict", (("Z",),))))]
+    if T:
+        inter += [(c, (("dc", (("X",), ("Y",))), ("Z",), ("W",))) for c in SEQ_CONTAINERS] + [(c, p) for c in ("list", "args") for p in itertools.permutations((("X",), ("Y",), ("Z",), ("W",)))]
+    for t in inter:
+        for kx, ky in pairs49:
+            for og in (True, False):
+                for s in SCHEDS:
+                    if T or s == "sync" or og:
+                        yield ("compute", t, kx, ky, True, og, s)
+                yield ("persist", t, kx, ky, True, og, "sync")
+            yield ("optimize", t, kx, ky, True, True, "sync")
+            if t[0] == "args":
+                for api in ("compute", "persist", "optimize"):
+                    yield (api, t, kx, ky, False, True, "sync")
     for t in leaves0:
         for api in ("compute", "persist", "optimize"):
             yield (api, t, "dly", "arr", False, True, "sync")
@@ -473,12 +496,17 @@ def sched_kwargs(s):
 
 # ====================================================================== finding classes
 def used_kinds(case):
+    """kinds of the DISTINCT collections held by the template (one entry per collection)"""
     _, t, kx, ky = case[:4]
     names = leaf_names(t)
     out = []
     if names & {"X", "X2"}:
         out.append(kx)
     if "Y" in names:
+        out.append(ky)
+    if "Z" in names:
+        out.append(kx)
+    if "W" in names:
         out.append(ky)
     return out
 
@@ -494,7 +522,7 @@ def known_class(case, failure, message):
     if api == "optimize":
         if "sc" in used and failure == "raises:NotImplementedError":
             return "optimize:raises:NotImplementedError:dataframe-reduction"
-        if len(used) == 2 and {"df", "ser"} & set(used):
+        if len(used) >= 2 and {"df", "ser"} & set(used):
             if failure == "raises:TypeError" and "'<' not supported between instances of" in message:
                 return "optimize:raises:TypeError:dataframe-among-other-collections"
             if failure == "wrong-value":
@@ -511,6 +539,9 @@ def run_case(case, ctx, extra_sched=None):
         Y, vy = make(ky, "Y")
         env = {"X": X, "Y": Y, "O": OPAQUE}
         vals = {"X": vx, "Y": vy, "O": OPAQUE}
+        if leaf_names(t) & {"Z", "W"}:
+            env["Z"], vals["Z"] = make(kx, "Z")
+            env["W"], vals["W"] = make(ky, "W")
         try:
             obj = construct(t, env)
             # reference for compute; also proves that the eager structure exists at all
@@ -550,8 +581,8 @@ def run_case(case, ctx, extra_sched=None):
                     why = same(gi, wi)
                     if why and not is_leaf(ti) and ti[0] == "iter" and hasattr(gi, "__next__"):
                         why = same(list(gi), wi)
-                elif is_leaf(ti) and isinstance(ti, tuple) and ti[0] in ("X", "X2", "Y"):
-                    why = same(gi, vals["Y" if ti[0] == "Y" else "X"])
+                elif is_leaf(ti) and isinstance(ti, tuple) and ti[0] in COLL:
+                    why = same(gi, vals["X" if ti[0] == "X2" else ti[0]])
                 else:
                     why = None if gi is ai else f"traverse=False: argument {k} is not returned as the identical object: {gi!r}"[:300]
                 if why:
@@ -559,7 +590,7 @@ def run_case(case, ctx, extra_sched=None):
                     break
         else:
             for k, (ti, ai, gi) in enumerate(zip(targs, args, got)):
-                if traverse or (is_leaf(ti) and isinstance(ti, tuple) and ti[0] in ("X", "X2", "Y")):
+                if traverse or (is_leaf(ti) and isinstance(ti, tuple) and ti[0] in COLL):
                     bad = walk_collections(ti, gi, env, vals, f"arg{k}")
                 else:
                     bad = None if gi is ai else ("leaf-changed", f"traverse=False: argument {k} is not returned as the identical object")
